@@ -300,6 +300,11 @@ func verifyDelayPeriodPassed(ctx sdk.Context, store storetypes.KVStore, proofHei
 		currentTimestamp := uint64(ctx.BlockTime().UnixNano())
 		validTime := processedTime + delayTimePeriod
 
+		// if the addition overflowed, the delay period cannot have passed
+		if validTime < processedTime {
+			return errorsmod.Wrapf(ErrDelayPeriodNotPassed, "delay time period %d overflows when added to processed time %d", delayTimePeriod, processedTime)
+		}
+
 		// NOTE: delay time period is inclusive, so if currentTimestamp is validTime, then we return no error
 		if currentTimestamp < validTime {
 			return errorsmod.Wrapf(ErrDelayPeriodNotPassed, "cannot verify packet until time: %d, current time: %d",
@@ -316,6 +321,11 @@ func verifyDelayPeriodPassed(ctx sdk.Context, store storetypes.KVStore, proofHei
 
 		currentHeight := clienttypes.GetSelfHeight(ctx)
 		validHeight := clienttypes.NewHeight(processedHeight.GetRevisionNumber(), processedHeight.GetRevisionHeight()+delayBlockPeriod)
+
+		// if the addition overflowed, the delay period cannot have passed
+		if validHeight.GetRevisionHeight() < processedHeight.GetRevisionHeight() {
+			return errorsmod.Wrapf(ErrDelayPeriodNotPassed, "delay block period %d overflows when added to processed height %s", delayBlockPeriod, processedHeight)
+		}
 
 		// NOTE: delay block period is inclusive, so if currentHeight is validHeight, then we return no error
 		if currentHeight.LT(validHeight) {
